@@ -25,6 +25,7 @@ Not decided: the O(ε²) energy-error clause at fixed trajectory length (asympto
 """
 from __future__ import annotations
 
+import ast
 import contextlib
 import inspect
 import io
@@ -356,7 +357,15 @@ def _integrator_class(variant):
         return _TWIN_CACHE[variant]
     src = textwrap.dedent(inspect.getsource(real))
     src = "\n".join(l for l in src.split("\n") if not l.strip().startswith("@register_class"))
+    roles = _int_roles(real)
+    import re as _re
+
+    def _ren(t):
+        for canon in ("dU", "params"):
+            t = _re.sub(r"\b%s\b" % canon, roles[canon], t)
+        return t
     for old, new in _TWINS[variant]:
+        old, new = _ren(old), _ren(new)
         if src.count(old) != 1:
             raise Undecided("vacuity twin %s cannot be built: pattern %r occurs %d times in the current source" % (variant, old, src.count(old)))
         src = src.replace(old, new)
@@ -555,6 +564,10 @@ class _Trace:
         self.states = []   # (lineno, event, params|None, momentum|None, n_oracle_calls)
         self.ret = None
         self.model = None
+        try:
+            self.pos_name = _int_roles()["params"]     # the position local, by role
+        except Undecided:
+            self.pos_name = "params"
 
     def _val(self, v):
         if isinstance(v, ST):
@@ -565,7 +578,7 @@ class _Trace:
 
     def _snap(self, frame, ev):
         loc = frame.f_locals
-        self.states.append((frame.f_lineno, ev, self._val(loc.get("params")), self._val(loc.get("momentum")),
+        self.states.append((frame.f_lineno, ev, self._val(loc.get(self.pos_name)), self._val(loc.get("momentum")),
                             len(self.model.calls) if self.model is not None else 0))
 
     def _glob(self, frame, event, arg):
@@ -761,16 +774,65 @@ def _Wspec(W):
     return _vec(W) if W.dim() == 1 else _mat(W)
 
 
-class _Locals(dict):
-    """locals() of a cut piece; a missing name means the source was refactored: undecided, not a verdict"""
-
-    def __missing__(self, k):
-        raise Undecided("loop cut: the local variable `%s` no longer exists in LeapfrogIntegrator.__call__" % k)
+class _CutUnavailableBase(Undecided):
+    pass
 
 
-class _CutUnavailable(Undecided):
+class _CutUnavailable(_CutUnavailableBase):
     """the loop cut cannot be applied to the current source (refactored function): the U obligation is downgraded to the
     V obligations, which cover the property's own bound"""
+
+
+_ROLE_CACHE = {}
+
+
+def _int_roles(cls=None):
+    """The two temporaries of LeapfrogIntegrator.__call__ the contract talks about, identified by ROLE from the current source
+    (never by name — renaming a local is not an alarm):
+        params  the local handed to set_tensor(parameters, X)        (the position)
+        dU      the local bound from an expression reading `.grad`    (minus the gradient of the log density)"""
+    cls = cls or _tt()["int_mod"].LeapfrogIntegrator
+    try:
+        src = textwrap.dedent(inspect.getsource(cls.__call__))
+    except (OSError, TypeError) as e:
+        raise _CutUnavailable("source of LeapfrogIntegrator.__call__ not available: %s" % e)
+    if src in _ROLE_CACHE:
+        return _ROLE_CACHE[src]
+    tree = ast.parse(src)
+    pos = {x.args[1].id for x in ast.walk(tree) if isinstance(x, ast.Call) and isinstance(x.func, ast.Name) and x.func.id == "set_tensor"
+           and len(x.args) == 2 and isinstance(x.args[1], ast.Name)}
+    grad = {x.targets[0].id for x in ast.walk(tree) if isinstance(x, ast.Assign) and len(x.targets) == 1 and isinstance(x.targets[0], ast.Name)
+            and any(isinstance(y, ast.Attribute) and y.attr == "grad" for y in ast.walk(x.value))}
+    if len(pos) != 1 or len(grad) != 1:
+        raise _CutUnavailable("LeapfrogIntegrator.__call__: cannot identify the position local (set_tensor argument: %s) / the gradient local "
+                              "(bound from .grad: %s)" % (sorted(pos), sorted(grad)))
+    r = {"params": next(iter(pos)), "dU": next(iter(grad))}
+    _ROLE_CACHE[src] = r
+    return r
+
+
+class _Locals(dict):
+    """locals() of a cut piece, read through the contract's names `params` / `dU` whatever the code calls them (_int_roles); a missing name
+    means the source was refactored: undecided, not a verdict"""
+    roles = None
+
+    def __getitem__(self, k):
+        k = (self.roles or {}).get(k, k)
+        if k not in self:
+            raise Undecided("loop cut: the local variable `%s` no longer exists in LeapfrogIntegrator.__call__" % k)
+        return dict.__getitem__(self, k)
+
+
+def _L(d, cls=None):
+    out = _Locals(d)
+    out.roles = _int_roles(cls)
+    return out
+
+
+def _S(state, cls=None):
+    """pre-state of a cut piece written with the contract's names -> the code's names"""
+    r = _int_roles(cls)
+    return {r.get(k, k): v for k, v in state.items()}
 
 
 _CUT_NAMES = ("self", "model", "parameters", "momentum", "inverse_mass_matrix", "params", "dU")
@@ -784,7 +846,8 @@ def _cut_pieces(cls):
         raise _CutUnavailable(str(e))
     if c.kind != "for" or c.iter.replace(" ", "") != "range(self.steps)":
         raise _CutUnavailable("loop cut: the loop header is %r, expected `for _ in range(self.steps)` (iteration count = steps)" % c.header)
-    missing = [n for n in _CUT_NAMES if n not in c.live]
+    roles = _int_roles(cls)
+    missing = [roles.get(n, n) for n in _CUT_NAMES if roles.get(n, n) not in c.live]
     if missing:
         raise _CutUnavailable("loop cut: live variables %s no longer exist in LeapfrogIntegrator.__call__" % missing)
     return c
@@ -811,7 +874,7 @@ def scn_cut(d, sizes, rank, variant="real"):
         Wbuf = _copy(env.W)
         # ---- prefix from an entry state
         p_in = _copy(P)
-        loc = _Locals(c.prefix(integ, env.model, env.params, P, env.W))
+        loc = _L(c.prefix(integ, env.model, env.params, P, env.W), cls)
         q0 = _vec(env.q)
         _, pk = _kick(q0, _vec(p_in), eps / 2, g_at)
         claims += [("eq", "prefix_params", loc["params"], q0),
@@ -830,8 +893,8 @@ def scn_cut(d, sizes, rank, variant="real"):
         mom = _copy(P)
         state = {"self": integ, "model": model2, "parameters": params2, "momentum": mom, "inverse_mass_matrix": env.W,
                  "params": Q, "dU": dUold, "_": 3}
-        tag, loc2 = c.body(state)
-        loc2 = _Locals(loc2)
+        tag, loc2 = c.body(_S(state, cls))
+        loc2 = _L(loc2, cls)
         qn, pn = _drift(_vec(env.q), _vec(P), eps, W)
         _, pn2 = _kick(qn, pn, eps, g_at)
         claims += [("true", "body_falls_through", tag == "next", tag),
@@ -851,7 +914,7 @@ def scn_cut(d, sizes, rank, variant="real"):
         dU3 = ST(np.array(dU3, dtype=object)) if sym else torch.tensor(dU3)
         state3 = {"self": integ, "model": model3, "parameters": params3, "momentum": mom3, "inverse_mass_matrix": env.W,
                   "params": _copy(env.q), "dU": dU3, "_": 6, "U": None}
-        ret = c.suffix(state3)
+        ret = c.suffix(_S(state3, cls))
         _, ps = _kick(_vec(env.q), _vec(P), -eps / 2, g_at)
         claims += [("eq", "suffix_returns_half_kick_back", ret, ps),
                    ("eq", "suffix_parameters_unchanged", env.position(params3), _vec(env.q)),
@@ -920,7 +983,8 @@ def scn_volume_cut(d, sizes, rank, variant="real"):
                 dU_inv = torch.tensor([-fl["g%d" % i](*[float(v) for v in x[:d]]) for i in range(d)])  # invariant dU = −∇logp(params)
                 st = {"self": env.integrator(5), "model": model2, "parameters": params2, "momentum": x[d:].clone(),
                       "inverse_mass_matrix": env.W, "params": x[:d].clone(), "dU": dU_inv, "_": 0}
-                _, loc = c.body(st)
+                _, loc = c.body(_S(st, cls))
+                loc = _L(loc, cls)
                 return torch.cat([loc["params"].detach(), loc["momentum"].detach()])
             det = float(torch.linalg.det(_fd_jacobian(body_map, torch.cat([env.q, P]))))
             ok = abs(det - 1.0) < 1e-7
@@ -947,7 +1011,7 @@ def scn_volume_cut(d, sizes, rank, variant="real"):
         st = {"self": integ, "model": model2, "parameters": params2, "momentum": _copy(P), "inverse_mass_matrix": env.W,
               "params": _copy(env.q), "dU": dUold, "_": 0}
         with tr:
-            c.body(st)
+            c.body(_S(st, cls))
         ok, info, nd, nk = _shear_analysis(tr.states, model2.calls, _vec(env.q), pn, None, consts)
         out.append(("true", "body_assignments_are_shears", ok and nd >= 1 and nk >= 1, info or "drift/kick not observed (%d,%d)" % (nd, nk)))
         # suffix: dU is the oracle answer at the current position (invariant), represented by the fresh symbols of a call
@@ -963,7 +1027,7 @@ def scn_volume_cut(d, sizes, rank, variant="real"):
         st = {"self": integ, "model": model3, "parameters": params3, "momentum": _copy(P), "inverse_mass_matrix": env.W,
               "params": _copy(env.q), "dU": dU3, "_": 0, "U": u}
         with tr:
-            c.suffix(st)
+            c.suffix(_S(st, cls))
         ok, info, nd, nk = _shear_analysis(tr.states, model3.calls, _vec(env.q), pn, None, consts)
         out.append(("true", "suffix_is_a_shear", ok, info))
         return out
